@@ -31,8 +31,11 @@ def run(pid, tier, spec, replay_file=None, write=True):
             cap = spec.get('quick_cap') if tier == 'quick' else spec.get('thorough_cap')
             if cap and len(lines) > cap:
                 rnd = random.Random(seed())
-                keep = sorted(rnd.sample(range(len(lines)), cap))
-                lines = [lines[i] for i in keep]
+                keep = set(rnd.sample(range(len(lines)), cap))
+                always = spec.get('always')
+                if always:
+                    keep |= {i for i, x in enumerate(lines) if always(json.loads(x))}
+                lines = [lines[i] for i in sorted(keep)]
                 open(cases_path, 'w').write('\n'.join(lines) + '\n')
         ncases = sum(1 for _ in open(cases_path))
         obs_path = os.path.join(tmp, 'obs.ndjson')
